@@ -193,6 +193,11 @@ def _gen(rng, kind, tier):
 def _mk(d):
     from .c03 import make_droplet
 
+    if d["cls"] == "PerturbedDroplet3DAxisSym" and (d["pos"][0] != 0 or d["pos"][1] != 0):
+        # on the axis up to round-off, as left behind by an assignment or a fit (not by the constructor)
+        obj = make_droplet({**d, "pos": [0.0, 0.0, d["pos"][2]]})
+        obj.position = np.asarray(d["pos"], float)
+        return obj
     return make_droplet(d)
 
 
